@@ -13,6 +13,8 @@ import sys
 from pathlib import Path
 
 VERIF = Path(__file__).resolve().parents[1]
+REPO = os.environ.get("OSU_REPO", "/repo")   # a scratch clone for a parallel lane; default: /repo itself
+SEEDED = Path(os.environ.get("OSU_SEEDED", str(VERIF / "seeded")))
 
 
 def sh(cmd, cwd=None, env=None, timeout=3600):
@@ -26,9 +28,12 @@ def main():
     mdir = Path(sys.argv[2])
     checks = [prop]
     keep = "--keep" in sys.argv
+    prefix = ""
     for a in sys.argv[3:]:
         if a.startswith("--checks"):
             checks = sys.argv[sys.argv.index(a) + 1].split(",")
+        if a == "--prefix":
+            prefix = sys.argv[sys.argv.index(a) + 1]     # e.g. r2 -> seeded/C08-r2m1
     wt = Path(f"/tmp/evalwt_{prop}")
     if wt.exists():
         sh(["git", "-C", "/repo", "worktree", "remove", "--force", str(wt)])
@@ -52,7 +57,7 @@ def main():
             r["demo_clean_rc"], r["demo_mutant_rc"] = rc0, rc1
             r["confirmed"] = rc0 == 0 and rc1 != 0 and rca == 0
             # run our checks on /repo with the patch applied
-            rca, outa = sh(["git", "-C", "/repo", "apply", str(patch)])
+            rca, outa = sh(["git", "-C", REPO, "apply", str(patch)])
             r["applies_repo"] = rca == 0
             r["checks"] = {}
             try:
@@ -62,14 +67,14 @@ def main():
                         vio = [ln for ln in out.splitlines() if ln.startswith("VIOLATION")]
                         r["checks"][c] = {"exit": rc, "violation": vio[:1], "tail": out.splitlines()[-1:]}
             finally:
-                sh(["git", "-C", "/repo", "checkout", "--", "."])
+                sh(["git", "-C", REPO, "checkout", "--", "."])
                 sh([sys.executable, str(VERIF / "tools" / "py2lean.py")])   # regenerated files follow /repo
                 sh([sys.executable, str(VERIF / "tools" / "py2lean_arith.py")])
             r["caught"] = any(v["exit"] == 1 for v in r["checks"].values())
             results.append(r)
             print(json.dumps(r))
             if keep and r["confirmed"]:
-                dst = VERIF / "seeded" / f"{prop}-{m.name}"
+                dst = SEEDED / f"{prop}-{prefix}{m.name}"
                 dst.mkdir(parents=True, exist_ok=True)
                 shutil.copy(patch, dst / "patch.diff")
                 shutil.copy(demo, dst / "demo.py")
